@@ -881,6 +881,12 @@ class Exec:
             x, y = ea.get(k, _MISSING), eb.get(k, _MISSING)
             if x is _MISSING: env[k] = y
             elif y is _MISSING: env[k] = x
+            elif isinstance(x, View) and isinstance(y, View) and x.base != y.base and x.step == 1 and y.step == 1 \
+                    and ival(x.start) == 0 and ival(y.start) == 0 and z3.eq(z3.simplify(x.length), z3.simplify(y.length)):
+                # the two branches bind the name to different whole arrays: the merged value is a new array holding the selected contents
+                self.st.fresh += 1; bid = '%s_merged#%d' % (k, self.st.fresh)
+                heap[bid] = (z3.If(cond, ha[x.base][0], hb[y.base][0]), x.length); self.st.initial[bid] = heap[bid][0]
+                env[k] = View(bid, z3.IntVal(0), 1, x.length)
             else: env[k] = self.merge(cond, x, y, k)
         st.heap, st.env = heap, env; self.branch_conds.append(cond)
 
@@ -933,9 +939,32 @@ class Exec:
         # dry run to find written bases / assigned names
         saved = (dict(st.heap), dict(st.env), len(st.oblig), list(st.assume), set(st.written), st.reg.n, list(st.reg.terms), self.loopno, list(self.branch_conds), len(st.callee_log))
         st.written = set(); st.env[var] = IntV(z3.Int(var + '!dry%d' % k)); st.assume = saved[3] + [lo <= st.env[var].t, st.env[var].t < hi]
-        try: self.block(s.body)
+        pre_born = {}
+        try:
+            for attempt in range(4):
+                try:
+                    self.block(s.body); break
+                except Undecided as e:
+                    # a local array that is created in an earlier iteration and used in later ones (`accum`): find its creating
+                    # assignment in the body, evaluate it once to learn its extent, and give the dry run a placeholder
+                    import re as _re
+                    mname = _re.search(r"(?:unknown name |invariant names local ')(\w+)", str(e))
+                    if not mname or attempt == 3: raise
+                    nm = mname.group(1); creator = None
+                    for node in ast.walk(ast.Module(body=list(s.body), type_ignores=[])):
+                        if isinstance(node, ast.Assign) and len(node.targets) == 1 and isinstance(node.targets[0], ast.Name) and node.targets[0].id == nm: creator = node; break
+                    if creator is None: raise
+                    val = self.ev(creator.value)
+                    if isinstance(val, Lazy): val = self.materialize(val)
+                    if not isinstance(val, View): raise
+                    bid = st.new_base(val.length, name=nm + '_dry'); st.env[nm] = View(bid, z3.IntVal(0), 1, val.length); pre_born[nm] = st.env[nm]
+                    st.written = set(); self.loopno = saved[7]
         finally:
             wr = set(b for b in st.written if b in saved[0]); env_after = st.env
+            # array locals first created inside the body (e.g. `accum = x[1:].copy()` in the first iteration) live on to later
+            # iterations: at the arbitrary iteration they exist with unknown contents (the invariant constrains them)
+            born = {nm: v for nm, v in list(env_after.items()) + list(pre_born.items()) if nm not in saved[1] and isinstance(v, View) and v.base not in saved[0]
+                    and ival(v.start) == 0 and v.step == 1 and ('!dry' not in z3.simplify(v.length).sexpr())}
             changed = [nm for nm in saved[1] if nm != var and env_after.get(nm) is not saved[1][nm]]
             st.heap, st.env = saved[0], saved[1]; del st.oblig[saved[2]:]; st.assume = saved[3]; st.written = saved[4]
             st.reg.n = saved[5]; st.reg.terms = saved[6]; self.loopno = saved[7]; self.branch_conds = saved[8]; del st.callee_log[saved[9]:]
@@ -946,6 +975,8 @@ class Exec:
         for nm in carried:
             old = saved[1][nm]
             st.env[nm] = IntV(z3.Int('%s!loop%d' % (nm, k))) if isinstance(old, IntV) else Cell(z3.Const('%s!loop%d' % (nm, k), old.t.sort()))
+        for nm, vw in born.items():
+            bid = st.new_base(vw.length, name=nm + '_born'); st.env[nm] = View(bid, z3.IntVal(0), 1, vw.length)
         st.env[var] = IntV(v); st.assume = base_assume + [lo <= v, v < hi]
         st.assume.append(inv(self, v, False))
         if ghost: st.assume += list(ghost(self, v))
@@ -958,6 +989,8 @@ class Exec:
         for nm in carried:
             old = saved[1][nm]
             st.env[nm] = IntV(z3.Int('%s!exit%d' % (nm, k))) if isinstance(old, IntV) else Cell(z3.Const('%s!exit%d' % (nm, k), old.t.sort()))
+        for nm, vw in born.items():
+            bid = st.new_base(vw.length, name=nm + '_exit'); st.env[nm] = View(bid, z3.IntVal(0), 1, vw.length)
         ex = z3.If(nonempty, last_next, first)
         st.env[var] = IntV(z3.simplify(z3.If(nonempty, last_next - (1 if not desc else -1), first)))
         st.assume = base_assume + [inv(self, ex, False)]
@@ -1039,8 +1072,13 @@ def _split_goal(g):
     return [g]
 
 
+RLIMIT_PER_MS = 1300          # calibrated: z3 consumes about 1.2-1.3 million resource units per CPU second on these queries
+
+
 def _check(assumptions, goal, timeout_ms, seed=0):
-    s = z3.Solver(); s.set('timeout', timeout_ms)
+    """budgets are given in (nominal) milliseconds but enforced through z3's deterministic resource limit, so that verdicts do
+    not depend on how busy the machine is; the wall-clock timeout is only a generous backstop"""
+    s = z3.Solver(); s.set('rlimit', int(timeout_ms * RLIMIT_PER_MS)); s.set('timeout', int(max(5000, timeout_ms * 15)))
     if seed: s.set('random_seed', seed)
     s.add(*assumptions); s.add(z3.Not(goal))
     r = s.check()
